@@ -225,26 +225,57 @@ def run(ctx):
             ctx.ob("T1d", b.defp, "length-read-after-open", loc(b.sp), ok, "the length field is read only after it was opened" if ok else "the length field is read without / before authentication")
 
     # ---------------- T2 latch after error -----------------------------------------------------------------
-    streams = [b for b in prog.methods_of_trait_impls("Stream", "poll_next") if any(c.name == "Decoder::decode" for (_, c, _) in b.calls())]
+    from .common import edge_dom
+    streams = [prog.flat(b.defp) for b in prog.methods_of_trait_impls("Stream", "poll_next")]
+    streams = [b for b in streams if any(c.name == "Decoder::decode" for (_, c, _) in b.calls())]
     ctx.floor("T2", "repo-defined Streams wrapping a Decoder", 1, len(streams))
     for b in streams:
-        for (blk, c, t) in b.calls():
-            if c.name != "Decoder::decode":
-                continue
+        decs_ = [(blk, c, t) for (blk, c, t) in b.calls() if c.name == "Decoder::decode"]
+        for (blk, c, t) in decs_:
             gs = [g for g in gates_of_value(b, t["dest"][0]) if g.kind == "result"]
-            latched = False
+            latch_fields = set()
             for g in gs:
                 err_t = g.target_for(1)
                 reach = b.reach_from(err_t)
                 for x in reach:
                     for s in b.stmts(x):
                         if s["k"] in ("assign", "setdiscr") and _writes_self_field(b, s["p"]):
-                            latched = True
-            # and some self field is tested before decoding
+                            fl = [e for e in s["p"][1] if e[0] == "field"]
+                            if fl:
+                                latch_fields.add(fl[-1][2] or fl[-1][1])
+            latched = bool(latch_fields)
             ctx.ob("T2", b.defp, "latches-after-decode-error", loc(t["sp"]), latched,
                    "a decode error is latched in the adapter" if latched else
                    "after a decode error the adapter keeps feeding later messages to the same codec (no latch): the server relay drops Err items and continues, so data after a "
                    "deleted/tampered chunk can still be released once the nonce counters re-align")
+            # the latch is consulted before *every* decode of a later activation: each decode call lies behind the not-set edge of a test of a
+            # latch field (a latch that only stops the transport poll still lets the rest of an already buffered message be decoded)
+            guarded = False
+            for sb in b.rpo():
+                st = b.term(sb)
+                if not st or st["k"] != "switch":
+                    continue
+                dp = op_place(st["d"])
+                if dp is None:
+                    continue
+                tested = None
+                for d in b.defs().get(dp[0], []):
+                    if d[0] == "assign" and d[3]["rv"]["k"] == "use":
+                        q = op_place(d[3]["rv"]["op"])
+                        if q and b.local_ty(dp[0]) == "bool":
+                            fl = [e for e in q[1] if e[0] == "field"]
+                            if fl and (fl[-1][2] or fl[-1][1]) in latch_fields:
+                                tested = fl[-1][2] or fl[-1][1]
+                if tested is None:
+                    continue
+                not_set = [tg for (v, tg) in st["arms"] if v == 0]
+                if not_set and edge_dom(prog, b, sb, not_set[0], blk):
+                    guarded = True
+            if latched:
+                ctx.ob("T2", b.defp, "latch-tested-before-decode", loc(t["sp"]), guarded,
+                       f"every decode lies behind the not-set edge of a test of the latch ({sorted(map(str, latch_fields))})" if guarded else
+                       f"the error latch ({sorted(map(str, latch_fields))}) is not tested on every path to this decode: after a decode error the rest of an already buffered "
+                       "message is offered to the codec again (the consumer drops Err items and keeps polling), so chunks behind a deleted one are released once the nonce counters re-align")
     # consumers that discard Err items
     for b in prog.prod_bodies():
         for (blk, c, t) in b.calls():
